@@ -310,7 +310,8 @@ def evaluate_cases(outdir):
                 c = bymeta.get((sh_i, idx), {"label": "?", "replay": None})
                 kind, step = code % 4, code // 4
                 steps = c.get("steps") or []
-                failures.append({"shard": sh_i, "idx": idx, "kind": kind, "step": step,
+                term, header, fn = case_term(path, idx)
+                failures.append({"coq_case": term, "coq_header": header, "coq_fn": fn, "shard": sh_i, "idx": idx, "kind": kind, "step": step,
                                  "label": c.get("label"), "step_label": steps[step] if step < len(steps) else None,
                                  "replay": c.get("replay"), "file": path})
     return meta, failures, errors, len(shards), time.time() - t
@@ -344,6 +345,44 @@ def merge_metas(metas):
     return m
 
 
+def case_term(path, idx):
+    """The idx-th case term of a shard file (terms are joined by ';\\n'), its header and the checking function."""
+    try:
+        txt = open(path).read()
+        m = re.search(r"(?s)^(.*?)\nDefinition cases : list \((.*?)\) := \[\n(.*)\n\]\.\nDefinition M := Eval vm_compute in \((\S+) cases\)", txt)
+        if not m:
+            return None, None, None
+        terms = m.group(3).split(";\n")
+        t = terms[idx] if idx < len(terms) else None
+        if t and len(t) > 200000:
+            t = None
+        return t, m.group(1) + "\n(* case type: " + m.group(2) + " *)", m.group(4)
+    except OSError:
+        return None, None, None
+
+
+def replay(pid, path):
+    """Re-evaluates the failing case of a replay file inside Coq (check_case on the single recorded case) and prints it."""
+    r = json.load(open(path))
+    c = r.get("case") or {}
+    print(json.dumps({k: v for k, v in r.items() if k not in ("case",)}, indent=1, default=str)[:3000])
+    print("signature:", r.get("signature"))
+    print("implementation-side replay data:", json.dumps(c.get("replay"), default=str)[:3000])
+    if c.get("coq_case") and c.get("coq_header"):
+        d = os.path.join(WORK, pid + "_replay")
+        os.makedirs(d, exist_ok=True)
+        f = os.path.join(d, "replay_case.v")
+        ctype = re.search(r"case type: (.*?) \*\)", c["coq_header"]).group(1)
+        open(f, "w").write(c["coq_header"] + "\nDefinition cases : list (%s) := [\n%s\n].\nDefinition M := Eval vm_compute in (%s cases).\nPrint M.\n" % (
+            ctype, c["coq_case"], c.get("coq_fn") or "mismatches"))
+        rc, out = sh(["coqc", "-R", os.path.join(COQ, "theories"), "VF", f], cwd=d, timeout=900)
+        print("Coq re-evaluation of the recorded case (code = step*4 + kind; kind 2 = property violated, 1 = model differs):")
+        print(out[-1500:])
+        return 0 if rc == 0 else 2
+    print("(no Coq case recorded in this replay file: the finding was decided outside Coq or names a broken obligation)")
+    return 0
+
+
 def signature(f):
     return "%s | %s" % (f.get("label"), f.get("step_label") or "")
 
@@ -361,6 +400,8 @@ def main(argv):
         print("usage: check <ID> quick|thorough")
         return 2
     pid, tier = argv[1], argv[2]
+    if tier == "--replay":
+        return replay(pid, argv[3])
     tier = os.environ.get("VERIF_TIER", tier) if tier not in ("quick", "thorough") else tier
     seed = int(os.environ.get("VERIF_SEED", "1") or "1")
     t0 = time.time()
